@@ -13,12 +13,9 @@ def normOutcome (s : String) : List String :=
   | [r, st, w, sm, pv, rb] => [r, toString (statusClass (parseNat st)), w, sm, pv, rb]
   | other => other
 
-/-- did the block, while located in the switchable ROM bank, write to the cartridge registers? -/
-def remaps (at_ : Nat) (writes : String) : Bool :=
-  at_ ≥ 0x4000 && (writes.splitOn "+").any fun w =>
-    match w.splitOn ":" with
-    | [a, _] => a != "" && parseNat a < 0x8000
-    | _ => false
+/-- did a host block located in the switchable ROM bank write to the cartridge's banking registers?  (`rm=`, computed by the
+harness over the interpreter's run: a write to 0x2000..0x7fff during a host block that starts in 0x4000..0x7fff) -/
+def remaps (l : Line) : Bool := l.outN "rm" == 1
 
 /-- the block of a c01 case replayed on the Lean models: x86 model of the regenerated templates where the recompiler
 runs, interpreter model where `can_dynarec` is false, with Core's block partition; outcome in the harness's format -/
@@ -77,7 +74,12 @@ def checkC01 (l : Line) : Verdict :=
   let at_ := l.inN "at"
   let names := ["registers/cycles", "status", "bus writes (order, values)", "OAM/IO/HRAM/IE image", "probed memory", "ROM bank"]
   if l.outS "i" == "died" then .ok false      -- the reference itself aborts (undefined opcode / non-executable area): excluded
-  else if i.length == 6 && remaps at_ (i.getD 2 "") then .ok false     -- recorded separately (C03: mid-block bank switch from banked code)
+  else if i.length == 6 && remaps l && (l.outS "jd" == "0" || l.outS "jd" == "exit101") then
+    -- the recorded finding (known_findings.txt): a block located in the switchable bank changed the bank mapped there;
+    -- the translated block goes on in the old bank's translation.  Reported under its own tag, never compared further
+    -- (a translated run killed by a signal is NOT covered by the tag; a Rust panic - execution reaching 0x8000 - is).
+    if i != j then .specDiff s!"[mid-block bank switch from code in the switchable bank] interpreter={l.outS "i"} translated={l.outS "j"}"
+    else .ok false
   else if l.outS "jd" != "0" then .specDiff s!"translated block did not return ({l.outS "jd"}); interpreter: {l.outS "i"}"
   else if i.length != 6 || j.length != 6 then .bad "malformed outcome"
   else
